@@ -253,10 +253,12 @@ let handle_chain (toks : string list) : (string * string * string) option =
      | "rawptr", [kind; a] ->
        let a = zs a in
        (* a refusal leaves the target as it was: a tainted holds null (its initial value), a cell is unchanged *)
-       let refused = (match kind with "tvol" -> "ABORT held=unchanged" | "tainted" -> "ABORT held=0" | _ -> "ABORT") in
+       let refused = (match kind with "tvol" -> "ABORT held=unchanged" | "tainted" | "taintedfn" | "acceptfn" -> "ABORT held=0" | _ -> "ABORT") in
        let m = (match kind with
            | "tvol" -> (match assign_raw_pointer_vol sa a with Ok r -> "OK " ^ string_of_z r | _ -> refused)
            | _ -> (match assign_raw_pointer sa a with Ok r -> "OK " ^ string_of_z r | _ -> refused)) in
+       (* address 1 stands for the address of an application function: outside every sandbox *)
+       let m = if (kind = "acceptfn" || kind = "taintedfn") && a = z_of_int 1 then refused else m in
        let inside = inv_ok sa a && a <> Z0 in
        let s = if inside then m else refused in
        Some (m, s, "rawptr:" ^ kind ^ (if inside then ":inside" else ":outside"))
